@@ -20,7 +20,7 @@ package drpcmetadata
 // byte-by-byte definition for every 64-bit value).
 //@ func varintSize
 //@   mode bv
-//@   props C11
+//@   props C11 C18
 //@   reveal vEncLen
 //@   ensures [size] result == uint64(vEncLen(n))
 //@   ensures [range] 1 <= result && result <= 10
@@ -29,7 +29,7 @@ package drpcmetadata
 
 //@ func encodedStringSize
 //@   mode int
-//@   props C11
+//@   props C11 C18
 //@   ensures [size] result == uint64(strSize(len(x)))
 
 // appendEntry: exactly the layout above; in particular the outer length prefix is the real length
@@ -52,6 +52,7 @@ package drpcmetadata
 //@   ensures [key]    forall i int :: 0 <= i && i < lk ==> result[b + 2 + n0 + n1 + i] == key[i]
 //@   ensures [tag2]   result[b + 2 + n0 + n1 + lk] == 18 && vEncAt(result, b + 3 + n0 + n1 + lk, uint64(lv), n2)
 //@   ensures [value]  forall i int :: 0 <= i && i < lv ==> result[b + 3 + n0 + n1 + lk + n2 + i] == value[i]
+//@   ensures [own-buffer] (arr(result) == arr(buf) && off(result) == off(buf)) || fresh(result)
 
 // ---- decoder: total, bounds-safe, and equal to the reference layout
 
@@ -146,9 +147,10 @@ package drpcmetadata
 //@ func Encode
 //@   props C11
 //@   modifies *
-//@   loop 1 invariant [m] metadata == metadata0
+//@   loop 1 invariant [m] metadata == metadata0 && ((arr(buf) == arr(buf0) && off(buf) == off(buf0)) || fresh(buf))
 //@   site appendEntry assert [C11.pair-from-map] haskey(metadata, arg1) && arg2 == metadata[arg1]
 //@   ensures [ok] result1 == nil
+//@   ensures [C11.own-buffer] (arr(result0) == arr(buf) && off(result0) == off(buf)) || fresh(result0)
 
 //@ func Get
 //@   props C11
